@@ -186,8 +186,10 @@ func runC13(w *h.W, batch int) {
 				if !w.Begin(map[string]any{"part": "range", "lo": q.Lo, "hi": q.Hi, "lo_unbounded": q.LoUnb, "hi_unbounded": q.HiUnb, "lo_inc": q.LoInc, "hi_inc": q.HiInc}) {
 					continue
 				}
+				// tokens: the value set plus numbers beyond the 64-bit integer range (never used as ends: keeps the case count)
+				toks := append(append([]string{}, vals...), "1e19", "18446744073709551615", "1e300", "-1e300", "-9223372036854775809", "9223372036854775807")
 				prov := &sliceProvider{first: 1}
-				for _, v := range vals {
+				for _, v := range toks {
 					prov.toks = append(prov.toks, []byte(v))
 				}
 				got, err := searchTIDs(rangeOf(q), prov)
@@ -196,7 +198,7 @@ func runC13(w *h.W, batch int) {
 				if err != nil {
 					bad = "pattern.Search failed: " + err.Error()
 				}
-				for i, v := range vals {
+				for i, v := range toks {
 					if bad != "" {
 						break
 					}
@@ -208,7 +210,7 @@ func runC13(w *h.W, batch int) {
 						bad = fmt.Sprintf("range lo=%q hi=%q unb=%v/%v inc=%v/%v token %q: matched=%v expected %v", q.Lo, q.Hi, q.LoUnb, q.HiUnb, q.LoInc, q.HiInc, v, !want, want)
 					}
 				}
-				w.Count("range_token_pairs", int64(len(vals)))
+				w.Count("range_token_pairs", int64(len(toks)))
 				if bad != "" {
 					w.Violation("C13:wrong-range-match", map[string]any{"diff": bad})
 					continue
